@@ -23,11 +23,14 @@ SUPP = {
  "C01": "; supplementary float64 probe of pinned regular points (exact zeros, exponent 0) against closed forms",
  "C02": "; supplementary float64 probe of pinned regular points (exact zeros, exponent 0) against closed forms",
  "C06": "; supplementary float64 probes of autograd.misc.optimizers / fixed_points (read-only start points, kept callback iterates)",
- "C07": "; supplementary float64 probes: LAPACK-backed primitives (first order, reverse-over-reverse, VJP differentiated w.r.t. its cotangent at zero) and second differences where the solver answers unknown",
- "C08": "; supplementary float64 probes: LAPACK double-VJP probe, orders 2-3 through misc.fixed_point",
- "C11": "; supplementary float64 second-order probe of complex indexing programs at real-valued complex points",
+ "C07": "; supplementary float64 probes: LAPACK-backed primitives (first order, reverse-over-reverse, VJP differentiated w.r.t. its cotangent at zero), second differences where the solver answers unknown, and nested derivatives at pinned values of the outer traced operand (closed forms; every binary ufunc against a central difference; np.sinc at 0)",
+ "C08": "; supplementary float64 probes: LAPACK double-VJP probe, orders 2-3 through misc.fixed_point, nested derivatives at pinned values of the outer traced operand in all four mode combinations (closed forms; every binary ufunc against a central difference)",
+ "C11": "; supplementary float64 probes: second order of complex indexing programs at real-valued complex points; mixed float32 / float64 contributions (dense, indexed, cancelling) to one float64 array in every order",
+ "C09": "; supplementary float64 probe of pinned points of complex-typed inputs (0j, integer exponents, real_if_close on zero imaginary parts) with complex tangents",
+ "C10": "; the float64 run of the reuse protocol (read-only arguments, fingerprints of captured index / option arrays) decides when the object-dtype run is clean",
+ "C13": "; concrete closure checks of the numpy.linalg result named tuples and of dtypes / memory",
  "C15": "; supplementary float64 probe of LAPACK-backed primitives with their option values (first order)",
- "C19": "; supplementary replay: every primitive's configurations differentiated in 8 (16) different orders in fresh interpreters (module-level state), NumPy global error state across raising differentiations",
+ "C19": "; supplementary replay: every primitive's configurations differentiated in 8 (16) different orders in fresh interpreters (module-level state), NumPy global error state across raising differentiations, VJP / JVP / gradient functions applied repeatedly with the caller editing each returned value in place",
  "C20": "; supplementary replay on real threads: exhaustive / sampled interleavings of array programs with scheduling points inside forward and backward passes, at trace entry/exit, and at every call inside autograd/numpy",
 }
 for _p, _t in SUPP.items():
